@@ -561,5 +561,5 @@ _c08_without_drt = c08_targets
 
 
 def c08_targets():       # noqa: F811
-    from . import assembly
-    return _c08_without_drt() + [target_trnnls("result"), assembly.target_drt_assembly()]
+    from . import assembly, tupleproto
+    return _c08_without_drt() + [target_trnnls("result"), assembly.target_drt_assembly(), tupleproto.target_tuple_protocols()]
